@@ -18,7 +18,9 @@ for s in seeds:
             kinds = "cell mismatch"
         others = [p for p, v in sorted(row.items()) if p != prop and v.get("exit") == 1]
         broken = [p for p, v in sorted(row.items()) if v.get("exit") == 2]
-        also = ", ".join(others) + ((" (inconclusive: " + ", ".join(broken) + ")") if broken else "")
+        slow = [p for p, v in sorted(row.items()) if v.get("exit") not in (0, 1, 2)]
+        also = ", ".join(others) + ((" (inconclusive: " + ", ".join(broken) + ")") if broken else "") \
+            + ((" (stopped after 7 min: " + ", ".join(slow) + ")") if slow else "")
         tgt_txt = ("**caught**: " if tgt.get("exit") == 1 else "**MISSED**: ") + kinds
     else:
         tgt_txt = "caught (" + ", ".join(meta.get("caught_by_checks", [])[:1]) + "; matrix not run)"
